@@ -187,6 +187,11 @@ Z __CPROVER_uninterpreted_fd24(Z x);   /* floor(x/24) */
 Z __CPROVER_uninterpreted_fm24(Z x);   /* x mod 24 in 0..23 */
 Z __CPROVER_uninterpreted_fd60(Z x);
 Z __CPROVER_uninterpreted_fm60(Z x);
+Z __CPROVER_uninterpreted_mul24(Z x);
+Z __CPROVER_uninterpreted_mul60(Z x);
+#define MUL24(x) __CPROVER_uninterpreted_mul24(x)
+#define MUL60(x) __CPROVER_uninterpreted_mul60(x)
+#define REVEAL_MUL(x) __CPROVER_assume(MUL24(x) == (Z)(x) * 24 && MUL60(x) == (Z)(x) * 60)
 #define FD24(x) __CPROVER_uninterpreted_fd24(x)
 #define FM24(x) __CPROVER_uninterpreted_fm24(x)
 #define FD60(x) __CPROVER_uninterpreted_fd60(x)
@@ -195,7 +200,8 @@ Z __CPROVER_uninterpreted_fm60(Z x);
 #define REVEAL_DM60(x) __CPROVER_assume(FD60(x) == FD((Z)(x), 60) && FM60(x) == FM((Z)(x), 60))
 /* facts about them (each an instance of a lemma proved with the definitions revealed) */
 #define lemma_dm_range_REQ(x) (ZB(x, 100))
-#define lemma_dm_range_ENS(x) (0 <= FM24(x) && FM24(x) < 24 && 0 <= FM60(x) && FM60(x) < 60 && (Z)(x) == 24 * FD24(x) + FM24(x) && (Z)(x) == 60 * FD60(x) + FM60(x))
+#define lemma_dm_range_ENS(x) (0 <= FM24(x) && FM24(x) < 24 && 0 <= FM60(x) && FM60(x) < 60 && (Z)(x) == 24 * FD24(x) + FM24(x) && (Z)(x) == 60 * FD60(x) + FM60(x) && \
+  ((Z)(x) >= 0 ? (0 <= FD60(x) && FD60(x) <= (Z)(x) && 0 <= FD24(x) && FD24(x) <= (Z)(x)) : ((Z)(x) <= FD60(x) && FD60(x) < 0 && (Z)(x) <= FD24(x) && FD24(x) < 0)))
 /* truncating split of one int64:  x/n + floor((x%n)/n) == floor(x/n)  and the remainders agree */
 #define lemma_split1_REQ(x) (1)
 #define lemma_split1_ENS(x) ((Z)((x) / 24) + FD24((Z)((x) % 24)) == FD24((Z)(x)) && FM24((Z)((x) % 24)) == FM24((Z)(x)) && \
@@ -375,35 +381,90 @@ __CPROVER_ensures(VALIDD(RV.y, 1, 1) && DAYORD(RV.y, 1, 1) <= CT_DAY(y, m, d, hh
 __CPROVER_ensures(NSEC_ALREADY(m, d, hh, mm, ss) ? (RV.y == y) : 1)
 __CPROVER_assigns();
 
-/* ---- C05: step, difference, operators ---- */
+/* ---- C05: step, difference, operators ----
+ * stated over the opaque day ordinal DAYORD and the opaque floor operations FD24/FD60 */
+#define OVALIDD(f) (1 <= (f).m && (f).m <= 12 && 1 <= (f).d && (f).d <= 31 && VALIDD((f).y, (f).m, (f).d))
+#define OVALID(f) (OVALIDD(f) && VALID_HMS((f).hh, (f).mm, (f).ss))
+#define ODAY(f) DAYORD((f).y, (f).m, (f).d)
+#define OHOUR(f) (ODAY(f) * 24 + (f).hh)
+#define OMIN(f) (OHOUR(f) * 60 + (f).mm)
+#define OSEC(f) (OMIN(f) * 60 + (f).ss)
+#define REPRDAY(u) (ORD_MIN <= (u) && (u) <= ORD_MAX)
+#undef REPR_second
+#undef REPR_minute
+#undef REPR_hour
+#undef REPR_day
+#define REPR_second(u) REPRDAY(FD24(FD60(FD60(u))))
+#define REPR_minute(u) REPRDAY(FD24(FD60(u)))
+#define REPR_hour(u) REPRDAY(FD24(u))
+#define REPR_day(u) REPRDAY(u)
+#undef UNIT_second
+#undef UNIT_minute
+#undef UNIT_hour
+#undef UNIT_day
+#define UNIT_second(f) OSEC(f)
+#define UNIT_minute(f) OMIN(f)
+#define UNIT_hour(f) OHOUR(f)
+#define UNIT_day(f) ODAY(f)
+/* facts used by the proofs of this section (each proved with the definitions revealed) */
+/* a valid date is counted from its month base */
+#define lemma_validday_REQ(y, m, d) (1 <= (m) && (m) <= 12 && 1 <= (d) && (d) <= 31 && VALIDD(y, m, d))
+#define lemma_validday_ENS(y, m, d) (DAYORD(y, m, d) == MONBASE(y, (diff_t)(m)) + (Z)(d) - 1)
+/* a month base plus a day count within the ordinal range satisfies the constructor's representability bound */
+#define lemma_nmonpre_REQ(y, m, d, cd) (1 <= (m) && (m) <= 12 && ZB(cd, 100) && REPRDAY(MONBASE(y, (diff_t)(m)) + (Z)(d) - 1 + (Z)(cd)))
+#define lemma_nmonpre_ENS(y, m, d, cd) (NMON_PRE(y, (diff_t)(m), d, cd))
+/* floor operations on sums with an exact multiple */
+#define lemma_dm_lin_REQ(a, b) (ZB(a, 100) && ZB(b, 100))
+#define lemma_dm_lin_ENS(a, b) (FD60(60 * (Z)(a) + (Z)(b)) == (Z)(a) + FD60((Z)(b)) && FM60(60 * (Z)(a) + (Z)(b)) == FM60((Z)(b)) && \
+                                FD24(24 * (Z)(a) + (Z)(b)) == (Z)(a) + FD24((Z)(b)) && FM24(24 * (Z)(a) + (Z)(b)) == FM24((Z)(b)))
+/* the floor operations are monotone */
+#define lemma_dm_mono_REQ(a, b) (ZB(a, 100) && ZB(b, 100) && (Z)(a) <= (Z)(b))
+#define lemma_dm_mono_ENS(a, b) (FD60(a) <= FD60(b) && FD24(a) <= FD24(b) && ZB(FD60(a), 100) && ZB(FD24(a), 100) && ZB(FD60(b), 100) && ZB(FD24(b), 100))
+/* a valid date with a 64-bit year lies inside the representable ordinal range */
+#define lemma_validrepr_REQ(y, m, d) (1 <= (m) && (m) <= 12 && 1 <= (d) && (d) <= 31 && VALIDD(y, m, d))
+#define lemma_validrepr_ENS(y, m, d) (REPRDAY(DAYORD(y, m, d)))
+/* later years start at least 365 days later */
+#define lemma_ordy_mono_REQ(a, b) (ZB(a, 66) && ZB(b, 66) && (Z)(a) < (Z)(b))
+#define lemma_ordy_mono_ENS(a, b) (ORDY(a) + 365 <= ORDY(b))
+/* on valid dates the day ordinal orders exactly like (year, month, day); hence it is injective */
+#define LEX3LT(y1, m1, d1, y2, m2, d2) ((y1) < (y2) || ((y1) == (y2) && ((m1) < (m2) || ((m1) == (m2) && (d1) < (d2)))))
+#define lemma_dayord_lex_REQ(y1, m1, d1, y2, m2, d2) (1 <= (m1) && (m1) <= 12 && 1 <= (d1) && (d1) <= 31 && VALIDD(y1, m1, d1) && 1 <= (m2) && (m2) <= 12 && 1 <= (d2) && (d2) <= 31 && VALIDD(y2, m2, d2))
+#define lemma_dayord_lex_ENS(y1, m1, d1, y2, m2, d2) ((LEX3LT(y1, m1, d1, y2, m2, d2) ? 1 : 0) == (DAYORD(y1, m1, d1) < DAYORD(y2, m2, d2) ? 1 : 0) && \
+                                                       (((y1) == (y2) && (m1) == (m2) && (d1) == (d2)) ? 1 : 0) == (DAYORD(y1, m1, d1) == DAYORD(y2, m2, d2) ? 1 : 0))
+/* n == 60*(n/60) + n%60 etc. for the truncating operators */
+#define lemma_trunc_REQ(n) (1)
+#define lemma_trunc_ENS(n) ((Z)(n) == 60 * (Z)((n) / 60) + (n) % 60 && (Z)(n) == 24 * (Z)((n) / 24) + (n) % 24 && (Z)(n) == 12 * (Z)((n) / 12) + (n) % 12 && \
+                            -60 < (n) % 60 && (n) % 60 < 60 && -24 < (n) % 24 && (n) % 24 < 24 && -12 < (n) % 12 && (n) % 12 < 12)
+
 fields step_second(fields f, diff_t n)
-__CPROVER_requires(VALID_F(f) && REPR_second(SECORD_F(f) + n))
-__CPROVER_ensures(VALID_F(RV) && SECORD_F(RV) == SECORD_F(f) + n)
+__CPROVER_requires(OVALID(f) && REPR_second(OSEC(f) + n))
+__CPROVER_ensures(OVALID(RV) && OSEC(RV) == OSEC(f) + n)
 __CPROVER_assigns();
 fields step_minute(fields f, diff_t n)
-__CPROVER_requires(VALID_F(f) && REPR_minute(MINORD_F(f) + n))
-__CPROVER_ensures(VALID_F(RV) && MINORD_F(RV) == MINORD_F(f) + n && RV.ss == f.ss)
+__CPROVER_requires(OVALID(f) && REPR_minute(OMIN(f) + n))
+__CPROVER_ensures(OVALID(RV) && OMIN(RV) == OMIN(f) + n && RV.ss == f.ss)
 __CPROVER_assigns();
 fields step_hour(fields f, diff_t n)
-__CPROVER_requires(VALID_F(f) && REPR_hour(HOURORD_F(f) + n))
-__CPROVER_ensures(VALID_F(RV) && HOURORD_F(RV) == HOURORD_F(f) + n && RV.mm == f.mm && RV.ss == f.ss)
+__CPROVER_requires(OVALID(f) && REPR_hour(OHOUR(f) + n))
+__CPROVER_ensures(OVALID(RV) && OHOUR(RV) == OHOUR(f) + n && RV.mm == f.mm && RV.ss == f.ss)
 __CPROVER_assigns();
 fields step_day(fields f, diff_t n)
-__CPROVER_requires(VALID_F(f) && REPR_day(DAYORD_F(f) + n))
-__CPROVER_ensures(VALID_F(RV) && DAYORD_F(RV) == DAYORD_F(f) + n && RV.hh == f.hh && RV.mm == f.mm && RV.ss == f.ss)
+__CPROVER_requires(OVALID(f) && REPR_day(ODAY(f) + n))
+__CPROVER_ensures(OVALID(RV) && ODAY(RV) == ODAY(f) + n && RV.hh == f.hh && RV.mm == f.mm && RV.ss == f.ss)
 __CPROVER_assigns();
 fields step_month(fields f, diff_t n)
-__CPROVER_requires(VALID_F(f) && f.d <= 28 && REPR_month(MONORD_F(f) + n))
-__CPROVER_ensures(VALID_F(RV) && MONORD_F(RV) == MONORD_F(f) + n && RV.d == f.d && RV.hh == f.hh && RV.mm == f.mm && RV.ss == f.ss)
+__CPROVER_requires(OVALID(f) && f.d <= 28 && REPR_month(MONORD_F(f) + n))
+__CPROVER_ensures(OVALID(RV) && MONORD_F(RV) == MONORD_F(f) + n && RV.d == f.d && RV.hh == f.hh && RV.mm == f.mm && RV.ss == f.ss)
 __CPROVER_assigns();
 fields step_year(fields f, diff_t n)
-__CPROVER_requires(VALID_F(f) && f.d <= 28 && REPR_year((Z)f.y + n))
-__CPROVER_ensures(VALID_F(RV) && (Z)RV.y == (Z)f.y + n && RV.m == f.m && RV.d == f.d && RV.hh == f.hh && RV.mm == f.mm && RV.ss == f.ss)
+__CPROVER_requires(OVALID(f) && f.d <= 28 && REPR_year((Z)f.y + n))
+__CPROVER_ensures(OVALID(RV) && (Z)RV.y == (Z)f.y + n && RV.m == f.m && RV.d == f.d && RV.hh == f.hh && RV.mm == f.mm && RV.ss == f.ss)
 __CPROVER_assigns();
 
 diff_t scale_add(diff_t v, diff_t f, diff_t a)
-__CPROVER_requires((f == 12 || f == 24 || f == 60) && -f < a && a < f && FITS64((Z)v * f + a))
-__CPROVER_ensures((Z)RV == (Z)v * f + a)
+#define SA_MUL(v, f) ((f) == 24 ? MUL24((Z)(v)) : ((f) == 60 ? MUL60((Z)(v)) : (Z)(v) * 12))
+__CPROVER_requires((f == 12 || f == 24 || f == 60) && -f < a && a < f && FITS64(SA_MUL(v, f) + a))
+__CPROVER_ensures((Z)RV == SA_MUL(v, f) + a)
 __CPROVER_assigns();
 
 diff_t ymd_ord(year_t y, month_t m, day_t d)
@@ -413,9 +474,30 @@ __CPROVER_assigns();
 
 diff_t day_difference(year_t y1, month_t m1, day_t d1, year_t y2, month_t m2, day_t d2)
 __CPROVER_requires(1 <= m1 && m1 <= 12 && 1 <= d1 && d1 <= 31 && 1 <= m2 && m2 <= 12 && 1 <= d2 && d2 <= 31)
-__CPROVER_requires(FITS64(ORD(y1, m1, d1) - ORD(y2, m2, d2)))
-__CPROVER_ensures((Z)RV == ORD(y1, m1, d1) - ORD(y2, m2, d2))
+__CPROVER_requires(VALIDD(y1, m1, d1) && VALIDD(y2, m2, d2) && FITS64(DAYORD(y1, m1, d1) - DAYORD(y2, m2, d2)))
+__CPROVER_ensures((Z)RV == DAYORD(y1, m1, d1) - DAYORD(y2, m2, d2))
 __CPROVER_assigns();
+
+/* unit differences, built up exactly as the units are nested (so each level adds one multiply-add);
+ * that UDIFF_x(a,b) == UNIT_x(a) - UNIT_x(b) is the code-free identity lemma_udiff */
+#define UDIFF_day(f1, f2) (ODAY(f1) - ODAY(f2))
+#define UDIFF_hour(f1, f2) (MUL24(UDIFF_day(f1, f2)) + ((Z)(f1).hh - (Z)(f2).hh))
+#define UDIFF_minute(f1, f2) (MUL60(UDIFF_hour(f1, f2)) + ((Z)(f1).mm - (Z)(f2).mm))
+#define UDIFF_second(f1, f2) (MUL60(UDIFF_minute(f1, f2)) + ((Z)(f1).ss - (Z)(f2).ss))
+/* x24, x60a, x60b stand for the three products (at a use they are the opaque MUL terms, revealed first) */
+#define lemma_udiff_REQ(A, B, h1, h2, m1, m2, s1, s2, x24, x60a, x60b) \
+  (ZB(A, 100) && ZB(B, 100) && (x24) == ((Z)(A) - (Z)(B)) * 24 && (x60a) == ((x24) + ((Z)(h1) - (Z)(h2))) * 60 && \
+   (x60b) == ((x60a) + ((Z)(m1) - (Z)(m2))) * 60)
+#define lemma_udiff_ENS(A, B, h1, h2, m1, m2, s1, s2, x24, x60a, x60b) \
+  ((x24) + ((Z)(h1) - (Z)(h2)) == ((Z)(A) * 24 + (h1)) - ((Z)(B) * 24 + (h2)) && \
+   (x60a) + ((Z)(m1) - (Z)(m2)) == (((Z)(A) * 24 + (h1)) * 60 + (m1)) - (((Z)(B) * 24 + (h2)) * 60 + (m2)) && \
+   (x60b) + ((Z)(s1) - (Z)(s2)) == ((((Z)(A) * 24 + (h1)) * 60 + (m1)) * 60 + (s1)) - ((((Z)(B) * 24 + (h2)) * 60 + (m2)) * 60 + (s2)))
+#define USE_UDIFF(f1, f2) do { REVEAL_MUL(UDIFF_day(f1, f2)); REVEAL_MUL(UDIFF_hour(f1, f2)); REVEAL_MUL(UDIFF_minute(f1, f2)); \
+  USE(lemma_udiff_REQ(ODAY(f1), ODAY(f2), (f1).hh, (f2).hh, (f1).mm, (f2).mm, (f1).ss, (f2).ss, MUL24(UDIFF_day(f1, f2)), MUL60(UDIFF_hour(f1, f2)), MUL60(UDIFF_minute(f1, f2))), \
+      lemma_udiff_ENS(ODAY(f1), ODAY(f2), (f1).hh, (f2).hh, (f1).mm, (f2).mm, (f1).ss, (f2).ss, MUL24(UDIFF_day(f1, f2)), MUL60(UDIFF_hour(f1, f2)), MUL60(UDIFF_minute(f1, f2))), "udiff"); } while (0)
+/* a bounded multiply-add that fits 64 bits has a multiplicand that fits 64 bits */
+#define lemma_fits_REQ(u, a, f) (ZB(u, 100) && ((f) == 24 || (f) == 60) && -(f) < (a) && (a) < (f) && FITS64(((f) == 24 ? MUL24(u) : MUL60(u)) + (a)))
+#define lemma_fits_ENS(u, a, f) (FITS64((Z)(u)))
 
 diff_t difference_year(fields f1, fields f2)
 __CPROVER_requires(FITS64((Z)f1.y - (Z)f2.y))
@@ -426,97 +508,97 @@ __CPROVER_requires(1 <= f1.m && f1.m <= 12 && 1 <= f2.m && f2.m <= 12 && FITS64(
 __CPROVER_ensures((Z)RV == MONORD_F(f1) - MONORD_F(f2))
 __CPROVER_assigns();
 diff_t difference_day(fields f1, fields f2)
-__CPROVER_requires(VALID_YMD(f1.y, f1.m, f1.d) && VALID_YMD(f2.y, f2.m, f2.d) && FITS64(DAYORD_F(f1) - DAYORD_F(f2)))
-__CPROVER_ensures((Z)RV == DAYORD_F(f1) - DAYORD_F(f2))
+__CPROVER_requires(OVALIDD(f1) && OVALIDD(f2) && FITS64(ODAY(f1) - ODAY(f2)))
+__CPROVER_ensures((Z)RV == ODAY(f1) - ODAY(f2))
 __CPROVER_assigns();
 diff_t difference_hour(fields f1, fields f2)
-__CPROVER_requires(VALID_F(f1) && VALID_F(f2) && FITS64(HOURORD_F(f1) - HOURORD_F(f2)))
-__CPROVER_ensures((Z)RV == HOURORD_F(f1) - HOURORD_F(f2))
+__CPROVER_requires(OVALID(f1) && OVALID(f2) && FITS64(UDIFF_hour(f1, f2)))
+__CPROVER_ensures((Z)RV == UDIFF_hour(f1, f2))
 __CPROVER_assigns();
 diff_t difference_minute(fields f1, fields f2)
-__CPROVER_requires(VALID_F(f1) && VALID_F(f2) && FITS64(MINORD_F(f1) - MINORD_F(f2)))
-__CPROVER_ensures((Z)RV == MINORD_F(f1) - MINORD_F(f2))
+__CPROVER_requires(OVALID(f1) && OVALID(f2) && FITS64(UDIFF_minute(f1, f2)))
+__CPROVER_ensures((Z)RV == UDIFF_minute(f1, f2))
 __CPROVER_assigns();
 diff_t difference_second(fields f1, fields f2)
-__CPROVER_requires(VALID_F(f1) && VALID_F(f2) && FITS64(SECORD_F(f1) - SECORD_F(f2)))
-__CPROVER_ensures((Z)RV == SECORD_F(f1) - SECORD_F(f2))
+__CPROVER_requires(OVALID(f1) && OVALID(f2) && FITS64(UDIFF_second(f1, f2)))
+__CPROVER_ensures((Z)RV == UDIFF_second(f1, f2))
 __CPROVER_assigns();
 
 fields ct_second_plus(fields a, diff_t n)
-__CPROVER_requires(VALID_F(a) && ALIGNED_second(a) && REPR_second(UNIT_second(a) + n))
-__CPROVER_ensures(VALID_F(RV) && ALIGNED_second(RV) && UNIT_second(RV) == UNIT_second(a) + n)
+__CPROVER_requires(OVALID(a) && ALIGNED_second(a) && REPR_second(UNIT_second(a) + n))
+__CPROVER_ensures(OVALID(RV) && ALIGNED_second(RV) && UNIT_second(RV) == UNIT_second(a) + n)
 __CPROVER_assigns();
 fields ct_second_minus(fields a, diff_t n)
-__CPROVER_requires(VALID_F(a) && ALIGNED_second(a) && REPR_second(UNIT_second(a) - n))
-__CPROVER_ensures(VALID_F(RV) && ALIGNED_second(RV) && UNIT_second(RV) == UNIT_second(a) - n)
+__CPROVER_requires(OVALID(a) && ALIGNED_second(a) && REPR_second(UNIT_second(a) - n))
+__CPROVER_ensures(OVALID(RV) && ALIGNED_second(RV) && UNIT_second(RV) == UNIT_second(a) - n)
 __CPROVER_assigns();
 diff_t ct_second_diff(fields lhs, fields rhs)
-__CPROVER_requires(VALID_F(lhs) && ALIGNED_second(lhs) && VALID_F(rhs) && ALIGNED_second(rhs) && FITS64(UNIT_second(lhs) - UNIT_second(rhs)))
+__CPROVER_requires(OVALID(lhs) && ALIGNED_second(lhs) && OVALID(rhs) && ALIGNED_second(rhs) && FITS64(UNIT_second(lhs) - UNIT_second(rhs)))
 __CPROVER_ensures((Z)RV == UNIT_second(lhs) - UNIT_second(rhs))
 __CPROVER_assigns();
 
 fields ct_minute_plus(fields a, diff_t n)
-__CPROVER_requires(VALID_F(a) && ALIGNED_minute(a) && REPR_minute(UNIT_minute(a) + n))
-__CPROVER_ensures(VALID_F(RV) && ALIGNED_minute(RV) && UNIT_minute(RV) == UNIT_minute(a) + n)
+__CPROVER_requires(OVALID(a) && ALIGNED_minute(a) && REPR_minute(UNIT_minute(a) + n))
+__CPROVER_ensures(OVALID(RV) && ALIGNED_minute(RV) && UNIT_minute(RV) == UNIT_minute(a) + n)
 __CPROVER_assigns();
 fields ct_minute_minus(fields a, diff_t n)
-__CPROVER_requires(VALID_F(a) && ALIGNED_minute(a) && REPR_minute(UNIT_minute(a) - n))
-__CPROVER_ensures(VALID_F(RV) && ALIGNED_minute(RV) && UNIT_minute(RV) == UNIT_minute(a) - n)
+__CPROVER_requires(OVALID(a) && ALIGNED_minute(a) && REPR_minute(UNIT_minute(a) - n))
+__CPROVER_ensures(OVALID(RV) && ALIGNED_minute(RV) && UNIT_minute(RV) == UNIT_minute(a) - n)
 __CPROVER_assigns();
 diff_t ct_minute_diff(fields lhs, fields rhs)
-__CPROVER_requires(VALID_F(lhs) && ALIGNED_minute(lhs) && VALID_F(rhs) && ALIGNED_minute(rhs) && FITS64(UNIT_minute(lhs) - UNIT_minute(rhs)))
+__CPROVER_requires(OVALID(lhs) && ALIGNED_minute(lhs) && OVALID(rhs) && ALIGNED_minute(rhs) && FITS64(UNIT_minute(lhs) - UNIT_minute(rhs)))
 __CPROVER_ensures((Z)RV == UNIT_minute(lhs) - UNIT_minute(rhs))
 __CPROVER_assigns();
 
 fields ct_hour_plus(fields a, diff_t n)
-__CPROVER_requires(VALID_F(a) && ALIGNED_hour(a) && REPR_hour(UNIT_hour(a) + n))
-__CPROVER_ensures(VALID_F(RV) && ALIGNED_hour(RV) && UNIT_hour(RV) == UNIT_hour(a) + n)
+__CPROVER_requires(OVALID(a) && ALIGNED_hour(a) && REPR_hour(UNIT_hour(a) + n))
+__CPROVER_ensures(OVALID(RV) && ALIGNED_hour(RV) && UNIT_hour(RV) == UNIT_hour(a) + n)
 __CPROVER_assigns();
 fields ct_hour_minus(fields a, diff_t n)
-__CPROVER_requires(VALID_F(a) && ALIGNED_hour(a) && REPR_hour(UNIT_hour(a) - n))
-__CPROVER_ensures(VALID_F(RV) && ALIGNED_hour(RV) && UNIT_hour(RV) == UNIT_hour(a) - n)
+__CPROVER_requires(OVALID(a) && ALIGNED_hour(a) && REPR_hour(UNIT_hour(a) - n))
+__CPROVER_ensures(OVALID(RV) && ALIGNED_hour(RV) && UNIT_hour(RV) == UNIT_hour(a) - n)
 __CPROVER_assigns();
 diff_t ct_hour_diff(fields lhs, fields rhs)
-__CPROVER_requires(VALID_F(lhs) && ALIGNED_hour(lhs) && VALID_F(rhs) && ALIGNED_hour(rhs) && FITS64(UNIT_hour(lhs) - UNIT_hour(rhs)))
+__CPROVER_requires(OVALID(lhs) && ALIGNED_hour(lhs) && OVALID(rhs) && ALIGNED_hour(rhs) && FITS64(UNIT_hour(lhs) - UNIT_hour(rhs)))
 __CPROVER_ensures((Z)RV == UNIT_hour(lhs) - UNIT_hour(rhs))
 __CPROVER_assigns();
 
 fields ct_day_plus(fields a, diff_t n)
-__CPROVER_requires(VALID_F(a) && ALIGNED_day(a) && REPR_day(UNIT_day(a) + n))
-__CPROVER_ensures(VALID_F(RV) && ALIGNED_day(RV) && UNIT_day(RV) == UNIT_day(a) + n)
+__CPROVER_requires(OVALID(a) && ALIGNED_day(a) && REPR_day(UNIT_day(a) + n))
+__CPROVER_ensures(OVALID(RV) && ALIGNED_day(RV) && UNIT_day(RV) == UNIT_day(a) + n)
 __CPROVER_assigns();
 fields ct_day_minus(fields a, diff_t n)
-__CPROVER_requires(VALID_F(a) && ALIGNED_day(a) && REPR_day(UNIT_day(a) - n))
-__CPROVER_ensures(VALID_F(RV) && ALIGNED_day(RV) && UNIT_day(RV) == UNIT_day(a) - n)
+__CPROVER_requires(OVALID(a) && ALIGNED_day(a) && REPR_day(UNIT_day(a) - n))
+__CPROVER_ensures(OVALID(RV) && ALIGNED_day(RV) && UNIT_day(RV) == UNIT_day(a) - n)
 __CPROVER_assigns();
 diff_t ct_day_diff(fields lhs, fields rhs)
-__CPROVER_requires(VALID_F(lhs) && ALIGNED_day(lhs) && VALID_F(rhs) && ALIGNED_day(rhs) && FITS64(UNIT_day(lhs) - UNIT_day(rhs)))
+__CPROVER_requires(OVALID(lhs) && ALIGNED_day(lhs) && OVALID(rhs) && ALIGNED_day(rhs) && FITS64(UNIT_day(lhs) - UNIT_day(rhs)))
 __CPROVER_ensures((Z)RV == UNIT_day(lhs) - UNIT_day(rhs))
 __CPROVER_assigns();
 
 fields ct_month_plus(fields a, diff_t n)
-__CPROVER_requires(VALID_F(a) && ALIGNED_month(a) && REPR_month(UNIT_month(a) + n))
-__CPROVER_ensures(VALID_F(RV) && ALIGNED_month(RV) && UNIT_month(RV) == UNIT_month(a) + n)
+__CPROVER_requires(OVALID(a) && ALIGNED_month(a) && REPR_month(UNIT_month(a) + n))
+__CPROVER_ensures(OVALID(RV) && ALIGNED_month(RV) && UNIT_month(RV) == UNIT_month(a) + n)
 __CPROVER_assigns();
 fields ct_month_minus(fields a, diff_t n)
-__CPROVER_requires(VALID_F(a) && ALIGNED_month(a) && REPR_month(UNIT_month(a) - n))
-__CPROVER_ensures(VALID_F(RV) && ALIGNED_month(RV) && UNIT_month(RV) == UNIT_month(a) - n)
+__CPROVER_requires(OVALID(a) && ALIGNED_month(a) && REPR_month(UNIT_month(a) - n))
+__CPROVER_ensures(OVALID(RV) && ALIGNED_month(RV) && UNIT_month(RV) == UNIT_month(a) - n)
 __CPROVER_assigns();
 diff_t ct_month_diff(fields lhs, fields rhs)
-__CPROVER_requires(VALID_F(lhs) && ALIGNED_month(lhs) && VALID_F(rhs) && ALIGNED_month(rhs) && FITS64(UNIT_month(lhs) - UNIT_month(rhs)))
+__CPROVER_requires(OVALID(lhs) && ALIGNED_month(lhs) && OVALID(rhs) && ALIGNED_month(rhs) && FITS64(UNIT_month(lhs) - UNIT_month(rhs)))
 __CPROVER_ensures((Z)RV == UNIT_month(lhs) - UNIT_month(rhs))
 __CPROVER_assigns();
 
 fields ct_year_plus(fields a, diff_t n)
-__CPROVER_requires(VALID_F(a) && ALIGNED_year(a) && REPR_year(UNIT_year(a) + n))
-__CPROVER_ensures(VALID_F(RV) && ALIGNED_year(RV) && UNIT_year(RV) == UNIT_year(a) + n)
+__CPROVER_requires(OVALID(a) && ALIGNED_year(a) && REPR_year(UNIT_year(a) + n))
+__CPROVER_ensures(OVALID(RV) && ALIGNED_year(RV) && UNIT_year(RV) == UNIT_year(a) + n)
 __CPROVER_assigns();
 fields ct_year_minus(fields a, diff_t n)
-__CPROVER_requires(VALID_F(a) && ALIGNED_year(a) && REPR_year(UNIT_year(a) - n))
-__CPROVER_ensures(VALID_F(RV) && ALIGNED_year(RV) && UNIT_year(RV) == UNIT_year(a) - n)
+__CPROVER_requires(OVALID(a) && ALIGNED_year(a) && REPR_year(UNIT_year(a) - n))
+__CPROVER_ensures(OVALID(RV) && ALIGNED_year(RV) && UNIT_year(RV) == UNIT_year(a) - n)
 __CPROVER_assigns();
 diff_t ct_year_diff(fields lhs, fields rhs)
-__CPROVER_requires(VALID_F(lhs) && ALIGNED_year(lhs) && VALID_F(rhs) && ALIGNED_year(rhs) && FITS64(UNIT_year(lhs) - UNIT_year(rhs)))
+__CPROVER_requires(OVALID(lhs) && ALIGNED_year(lhs) && OVALID(rhs) && ALIGNED_year(rhs) && FITS64(UNIT_year(lhs) - UNIT_year(rhs)))
 __CPROVER_ensures((Z)RV == UNIT_year(lhs) - UNIT_year(rhs))
 __CPROVER_assigns();
 
@@ -547,28 +629,28 @@ bool ct_ne(fields lhs, fields rhs) __CPROVER_ensures(RV == (FIELDS_EQ(lhs, rhs) 
 #define lemma_wd_cong_ENS(a, b) (WD(a) == WD(b))
 
 weekday get_weekday(fields cs)
-__CPROVER_requires(VALID_F(cs))
+__CPROVER_requires(OVALID(cs))
 __CPROVER_ensures((Z)(int)RV == WD(ORD(cs.y, cs.m, cs.d)))
 __CPROVER_assigns();
 
 int get_yearday(fields cs)
-__CPROVER_requires(VALID_F(cs))
+__CPROVER_requires(OVALID(cs))
 __CPROVER_ensures((Z)RV == ORD(cs.y, cs.m, cs.d) - ORD(cs.y, 1, 1) + 1)
 __CPROVER_ensures(1 <= RV && RV <= 365 + (LEAP(cs.y) ? 1 : 0))
 __CPROVER_assigns();
 
 fields next_weekday(fields cd, weekday wd)
-__CPROVER_requires(VALID_F(cd) && ALIGNED_day(cd) && 0 <= (int)wd && (int)wd <= 6 && REPR_day(DAYORD_F(cd) + 7))
-__CPROVER_ensures(VALID_F(RV) && ALIGNED_day(RV))
-__CPROVER_ensures(1 <= DAYORD_F(RV) - DAYORD_F(cd) && DAYORD_F(RV) - DAYORD_F(cd) <= 7)
-__CPROVER_ensures(WD(DAYORD_F(RV)) == (Z)(int)wd)
+__CPROVER_requires(OVALID(cd) && ALIGNED_day(cd) && 0 <= (int)wd && (int)wd <= 6 && REPR_day(ODAY(cd) + 7))
+__CPROVER_ensures(OVALID(RV) && ALIGNED_day(RV))
+__CPROVER_ensures(1 <= ODAY(RV) - ODAY(cd) && ODAY(RV) - ODAY(cd) <= 7)
+__CPROVER_ensures(WD(ODAY(RV)) == (Z)(int)wd)
 __CPROVER_assigns();
 
 fields prev_weekday(fields cd, weekday wd)
-__CPROVER_requires(VALID_F(cd) && ALIGNED_day(cd) && 0 <= (int)wd && (int)wd <= 6 && REPR_day(DAYORD_F(cd) - 7))
-__CPROVER_ensures(VALID_F(RV) && ALIGNED_day(RV))
-__CPROVER_ensures(1 <= DAYORD_F(cd) - DAYORD_F(RV) && DAYORD_F(cd) - DAYORD_F(RV) <= 7)
-__CPROVER_ensures(WD(DAYORD_F(RV)) == (Z)(int)wd)
+__CPROVER_requires(OVALID(cd) && ALIGNED_day(cd) && 0 <= (int)wd && (int)wd <= 6 && REPR_day(ODAY(cd) - 7))
+__CPROVER_ensures(OVALID(RV) && ALIGNED_day(RV))
+__CPROVER_ensures(1 <= ODAY(cd) - ODAY(RV) && ODAY(cd) - ODAY(RV) <= 7)
+__CPROVER_ensures(WD(ODAY(RV)) == (Z)(int)wd)
 __CPROVER_assigns();
 
 #pragma CPROVER check pop
